@@ -189,7 +189,6 @@ Proof.
   inversion H; subst u; clear H. cbn [u_scheme u_login u_port u_path u_host u_num].
   apply orb_false_iff in Hd as [Hd1 Hd2].
   repeat split; try reflexivity; try lia; try assumption.
-  intros Hck. rewrite Hck in Hc. cbn [andb] in Hc. apply negb_false_iff in Hc. exact Hc.
 Qed.
 
 (* ------------------------------------------------------------------ *)
